@@ -139,13 +139,29 @@ def profile(draw, allow_zero=False, max_n=60):
 def el_cases(draw):
     pr = draw(profile(allow_zero=True))
     pr["use_w"] = draw(st.booleans())
+    # layers listed in another order than by height (descending tables, two instruments' profiles concatenated): slab
+    # membership, totals and moments do not depend on the order in which the layers are listed
+    pr["order"] = draw(st.sampled_from(["ascending", "ascending", "descending", "shuffled", "two_tables"]))
+    pr["perm_seed"] = draw(st.integers(0, 2**32 - 1))
     return pr
 
 
 def el_body(ctx, case):
     h, p, L = case["h"], case["p"], case["L"]
     ctx.case(case, nontrivial=case["kind"] in ("irregular", "clustered") or L >= 3, classes=[case["kind"], "L1" if L == 1 else ("L2" if L == 2 else "L3plus"), "wind" if case["use_w"] else "no_wind", "zeros" if (p == 0).any() else "positive", "w_" + str(case["w"].dtype), "h_" + str(h.dtype)])
-    check_equivalent(ctx, h, p, L, case["w"] if case["use_w"] else None)
+    w = case["w"]
+    order = case.get("order", "ascending")
+    if order != "ascending" and len(h) >= 2:
+        n = len(h)
+        if order == "descending":
+            perm = np.arange(n)[::-1]
+        elif order == "shuffled":
+            perm = gen.np_rng(case["perm_seed"]).permutation(n)
+        else:
+            perm = np.concatenate([np.arange(0, n, 2), np.arange(1, n, 2)])
+        h, p, w = h[perm].copy(), p[perm].copy(), w[perm].copy()
+    ctx.classes["order_" + order] += 1
+    check_equivalent(ctx, h, p, L, w if case["use_w"] else None)
 
 
 def el_enum_run(ctx):
